@@ -403,7 +403,7 @@ def run_check(prop, tier, verif_seed, runs=None, workers=None):
             res0 = execute(h, sc)
             if not any(signature(x) == sig for x in res0.violations):
                 continue
-            sh = Shrinker(h, sig, budget=budget if sig[0] != "hang" else 0)  # every candidate of a hang costs the full wall
+            sh = Shrinker(h, sig, budget=budget if sig[0] != "hang" else 0, execute=lambda s_: execute(h, s_))  # every candidate of a hang costs the full wall
             cand = sh.run(sc) if sig[0] != "hang" else sc
             res = execute(h, cand) if sig[0] != "hang" else res0
             cv = [x for x in res.violations if signature(x) == sig]
